@@ -1,7 +1,12 @@
 #!/bin/bash
-# builds the lint plugins falco-p1..p4 (same program under four names) into .build/plugins
+# builds the lint plugins falco-p1..p4 (same program under four names) into .build/plugins.
+# Every file is written under a temporary name and renamed into place: a plugin that another run of
+# this check is executing right now can be replaced that way ("text file busy" otherwise).
 VERIF="$1"
 export GOPROXY=off GOFLAGS=-mod=mod
-mkdir -p "$VERIF/.build/plugins"
-cd "$VERIF/harness" && go build $VERIF_MODFLAG -o "$VERIF/.build/plugins/falco-p1" ./cmd/c18plugin || exit 1
-for n in 2 3 4; do cp "$VERIF/.build/plugins/falco-p1" "$VERIF/.build/plugins/falco-p$n"; done
+D="$VERIF/.build/plugins"
+mkdir -p "$D"
+T="$D/.tmp-$$"
+cd "$VERIF/harness" && go build $VERIF_MODFLAG -o "$T" ./cmd/c18plugin || { rm -f "$T"; exit 1; }
+for n in 1 2 3 4; do cp "$T" "$T-$n" && mv -f "$T-$n" "$D/falco-p$n" || { rm -f "$T" "$T-$n"; exit 1; }; done
+rm -f "$T"
